@@ -3,6 +3,8 @@ package h
 import (
 	"github.com/hattya/go.sh/ast"
 	"github.com/hattya/go.sh/interp"
+	"github.com/hattya/go.sh/pattern"
+	"strings"
 	"verifharness/nd"
 )
 
@@ -63,4 +65,57 @@ func Conf_ArithCorpus() {
 			nd.Observe(name + "=" + v.Value)
 		}
 	}
+}
+
+// Conf_MatchCorpus: the tables of /repo/pattern/pattern_test.go (TestMatch,
+// TestMatchError) concretely through the engine (regexp model included) and
+// natively.
+var repoMatch = []struct {
+	pats []string
+	mode pattern.Mode
+	s    string
+}{
+	{[]string{""}, 0, ""},
+	{[]string{"", ""}, 0, ""},
+	{[]string{"*.go"}, 0, "go.mod"},
+	{[]string{"*.go"}, 0, "pattern.go"},
+	{[]string{"*.sw?"}, 0, ".pattern.go.swp"},
+	{[]string{"\\w"}, 0, "w"},
+	{[]string{"\\["}, 0, "["},
+	{[]string{"abc[lmn]xyz"}, 0, "abcmxyz"},
+	{[]string{"abc[!lmn]xyz"}, 0, "abc-xyz"},
+	{[]string{"[]\\-]"}, 0, "-"},
+	{[]string{"[[\\+]"}, 0, "+"},
+	{[]string{"[[:digit:]]"}, 0, "1"},
+	{[]string{"[[:digit]"}, 0, ":"},
+	{[]string{"/*"}, pattern.Smallest | pattern.Suffix, "foo"},
+	{[]string{"/*"}, pattern.Smallest | pattern.Suffix, "foo/bar/baz"},
+	{[]string{"/*"}, pattern.Largest | pattern.Suffix, "foo"},
+	{[]string{"/*"}, pattern.Largest | pattern.Suffix, "foo/bar/baz"},
+	{[]string{"*/"}, pattern.Smallest | pattern.Prefix, "foo"},
+	{[]string{"*/"}, pattern.Smallest | pattern.Prefix, "foo/bar/baz"},
+	{[]string{"*/"}, pattern.Largest | pattern.Prefix, "foo"},
+	{[]string{"*/"}, pattern.Largest | pattern.Prefix, "foo/bar/baz"},
+	{[]string{"*"}, pattern.Smallest | pattern.Suffix, ""},
+	{[]string{"*"}, pattern.Smallest | pattern.Prefix, ""},
+	{[]string{"*"}, pattern.Suffix | pattern.Prefix, "foo"},
+	{[]string{"?"}, pattern.Smallest | pattern.Suffix, "\xf0\xff"},
+	{[]string{"?"}, pattern.Smallest | pattern.Prefix, "\xf0\xff"},
+	{[]string{"\xff"}, 0, ""},
+	{[]string{"\\"}, 0, ""},
+	{[]string{"\\\xff"}, 0, ""},
+	{[]string{"["}, 0, ""},
+	{[]string{"[\xff"}, 0, ""},
+	{[]string{"[\\"}, 0, ""},
+	{[]string{"[\\\xff"}, 0, ""},
+	{[]string{"[["}, 0, ""},
+	{[]string{"[[\xff"}, 0, ""},
+	{[]string{"[[\\"}, 0, ""},
+}
+
+func Conf_MatchCorpus() {
+	t := repoMatch[nd.Choice(len(repoMatch))]
+	g, err := pattern.Match(t.pats, t.mode, t.s)
+	nd.Observe(strings.Join(t.pats, "|") + " " + itoa(int(t.mode)) + " " + t.s)
+	nd.Observe(g + " / " + errStr(err))
 }
